@@ -63,8 +63,9 @@ func (c08Stream) Generate(rng *rand.Rand, n int, thorough bool) []Case {
 		}
 		// (dupid: a careless client uses ONE message id for all its requests in flight, and a third one with the same id
 		// is answered at once while the other two are still being handled)
-		cs = append(cs, Case{Line: fmt.Sprintf("c08 conns=%d ending=%s inflight=%s mode=%s seed=%d dupid=%d", k, ending,
-			[]string{"none", "blocked", "writing", "racing", "panicking", "goexit"}[rng.Intn(6)], []string{"plain", "plain", "tls", "starttls"}[rng.Intn(4)], rng.Intn(1<<30), rng.Intn(3)/2), Kind: ending})
+		// (chatty: a client that goes on sending - a byte every 40 ms - after the request that ended its connection)
+		cs = append(cs, Case{Line: fmt.Sprintf("c08 conns=%d ending=%s inflight=%s mode=%s seed=%d dupid=%d chatty=%d", k, ending,
+			[]string{"none", "blocked", "writing", "racing", "panicking", "goexit"}[rng.Intn(6)], []string{"plain", "plain", "tls", "starttls"}[rng.Intn(4)], rng.Intn(1<<30), rng.Intn(3)/2, rng.Intn(3)/2), Kind: ending})
 	}
 	return cs
 }
@@ -375,6 +376,19 @@ func (c08Stream) Impl(c Case) string {
 	}
 	k, ending, inflight, mode := atoi(p["conns"]), p["ending"], p["inflight"], p["mode"]
 	dupid := p["dupid"] == "1"
+	chatter := func(cl *rawClient) {
+		if p["chatty"] != "1" {
+			return
+		}
+		go func() {
+			for i := 0; i < 100; i++ {
+				if _, err := cl.c.Write([]byte{0}); err != nil {
+					return
+				}
+				time.Sleep(40 * time.Millisecond)
+			}
+		}()
+	}
 	rng := rand.New(rand.NewSource(int64(atoi(p["seed"]))))
 	tlsConfigs()
 	runtime.GC()
@@ -558,11 +572,14 @@ func (c08Stream) Impl(c Case) string {
 					}
 				case "unbind":
 					_ = x.c.send(Seq(Int(2, 99), P(1, 2, nil)).Ser())
+					chatter(x.c)
 				case "malformed":
 					_ = x.c.send([]byte{0x30, 0x03, 0x02, 0x01})
 					_ = x.c.send([]byte{0xff, 0xff, 0xff, 0xff})
+					chatter(x.c)
 				case "unsupported":
 					_ = x.c.send(Seq(Int(2, 98), C(1, 12, Oct("cn=a"), Oct("cn=b"), Bool(true))).Ser())
+					chatter(x.c)
 				case "midframe":
 					f := opFrame("search", 97)
 					_ = x.c.send(f[:len(f)/2])
@@ -677,6 +694,19 @@ func (c08Stream) Impl(c Case) string {
 						fail("connection %s (%s) was not closed by the server", x.tag, x.ending)
 					}
 					break
+				}
+			}
+			if p["chatty"] == "1" && x.ending != "panic" && x.ending != "timeout" {
+				// the end of the stream has been seen; a server that has really closed the socket refuses what is still sent
+				refused := false
+				for i := 0; i < 60 && !refused; i++ {
+					if _, err := x.c.c.Write([]byte{0}); err != nil {
+						refused = true
+					}
+					time.Sleep(40 * time.Millisecond)
+				}
+				if !refused {
+					fail("connection %s (%s) was not closed by the server: 2.4 s after the end of its stream it still takes what the client sends", x.tag, x.ending)
 				}
 			}
 			x.c.close()
